@@ -41,7 +41,11 @@ template<class Shape_> vj::Value run_parti(const vj::Value& c)
   Geometry::MeshAtlas<MeshType> atlas;
   Geometry::PartitionSet pset;
   std::unique_ptr<NodeType> base;
-  if(src.has("file")) base = build_file<Shape_>(src["file"].as_str(), atlas, &pset);
+  if(src.has("file"))
+  {
+    try { base = build_file<Shape_>(src["file"].as_str(), atlas, &pset); }
+    catch(const std::exception& e) { vj::Value r = vh::ok(); r["skip"] = true; r["why"] = std::string("mesh file cannot be loaded standalone: ") + e.what(); return r; }
+  }
   else if(src.has("raw")) base = NodeType::make_unique(build_raw<Shape_>(src["raw"]));
   else base = NodeType::make_unique(build_factory<Shape_>(src));
   if(c.get_int("fileparts", 1) == 0)
@@ -99,6 +103,7 @@ template<class Shape_> vj::Value run_parti(const vj::Value& c)
     if(G > 30) G = 30;
     if(G < 3) { vj::Value r = vh::ok(); r["skip"] = true; r["why"] = "coordinates too large for the integer domain"; return r; }
     snap(*base->get_mesh(), G);
+    if(!distinct_vertices(*base->get_mesh())) { vj::Value r = vh::ok(); r["skip"] = true; r["why"] = "snapping merges vertices"; return r; }
   }
   for(int l(0); l < pre; ++l) base = base->refine_unique(Geometry::AdaptMode::none);
   MeshType& bmesh = *base->get_mesh();
